@@ -103,7 +103,7 @@ PROPS = {
         ],
     },
     'C09': {
-        'streams': ['conn09'],
+        'streams': ['conn09', 'modes09'],
         'shrink': {},
         'assumptions': [
             "handlers are the harness application (respond / respond with close / Err / respond then Err / read body); the pre-routing hook answers or proceeds",
